@@ -87,6 +87,14 @@ def specVerdict (before : FdTable) (k : Kind) (rs : List Redir) (tr : Trace) : S
   else if !noExtraInternal before tr.t (if persists then rs.map (·.fd) else []) then "FAIL:descriptor-left-open"
   else if persists && !lastPersisted before rs tr then "FAIL:exec-redirection-did-not-persist"
   else if !noLowCloexec before tr.t then "FAIL:cloexec-below-10-left"
+  else if !(match tr.steps with
+      | some (steps, _) => steps.all fun (_, td) => noLowCloexec before td
+      | none => true) then "FAIL:cloexec-below-10-after-a-step"
+  else if !(match tr.steps with
+      | some (steps, none) => (match steps.getLast? with
+          | some (_, td) => internalOk td tr.saved
+          | none => true)
+      | _ => true) then "FAIL:internal-descriptor-of-the-guard"
   else match tr.during with
     | some (_, td) =>
       if !internalOk td (tr.saved ++ [⟨0, tr.script⟩]) then "FAIL:internal-descriptor"
